@@ -53,6 +53,18 @@ def _norm_builder(mi, fn, idxname, kindname):
                 and isinstance(lp.iter.func, ast.Name) and lp.iter.func.id in mi.functions and len(lp.iter.args) == 1 and norm(lp.iter.args[0]) == kindname:
             h = mi.functions[lp.iter.func.id]
             hp = [a.arg for a in h.args.args]
+            # ... or by a comprehension filtered on the exact type: return [o for o in candidates if type(o) is cls]
+            if len(hp) == 1:
+                comps = [r.value for r in ast.walk(h) if isinstance(r, ast.Return) and isinstance(r.value, (ast.ListComp, ast.GeneratorExp))]
+                comps += [st.value for r in ast.walk(h) if isinstance(r, ast.Return) and isinstance(r.value, ast.Name)
+                          for st in ast.walk(h) if isinstance(st, ast.Assign) and len(st.targets) == 1 and norm(st.targets[0]) == r.value.id
+                          and isinstance(st.value, (ast.ListComp, ast.GeneratorExp))]
+                for cp in comps:
+                    g = cp.generators[-1]
+                    if isinstance(cp.elt, ast.Name) and isinstance(g.target, ast.Name) and cp.elt.id == g.target.id and any(
+                            isinstance(t, ast.Compare) and len(t.ops) == 1 and isinstance(t.ops[0], (ast.Is, ast.Eq))
+                            and norm(t.left) == 'type(%s)' % g.target.id and norm(t.comparators[0]) == hp[0] for t in g.ifs):
+                        pre = True
             rets = [r for r in ast.walk(h) if isinstance(r, ast.Return) and isinstance(r.value, ast.Name)]
             if len(hp) == 1 and len(rets) == 1:
                 lst = rets[0].value.id
